@@ -231,6 +231,12 @@ func runSplit1(m *Model, r *RuleResult) {
 				if isTest && k == mu.Key && sameMapValue(mp, mu.Map) {
 					continue
 				}
+				// a nil test of the key itself: nothing that is reached is left out by it
+				if bo, ok := d.If.Cond.(*ssa.BinOp); ok && (bo.Op == token.EQL || bo.Op == token.NEQ) {
+					if c, isC := bo.Y.(*ssa.Const); isC && c.Value == nil && (bo.X == mu.Key || sameSSAExpr(bo.X, mu.Key, 0)) {
+						continue
+					}
+				}
 				bad = append(bad, d.If.Cond.String()+" at "+m.Pos(d.If.Cond.Pos()))
 			}
 			if len(bad) == 0 {
@@ -250,7 +256,7 @@ func sameMapValue(a, b ssa.Value) bool {
 	}
 	ua, ok1 := a.(*ssa.UnOp)
 	ub, ok2 := b.(*ssa.UnOp)
-	if ok1 && ok2 && ua.Op == token.MUL && ub.Op == token.MUL && ua.X == ub.X {
+	if ok1 && ok2 && ua.Op == token.MUL && ub.Op == token.MUL && (ua.X == ub.X || sameSSAExpr(ua.X, ub.X, 0)) {
 		return true
 	}
 	return false
